@@ -1191,4 +1191,21 @@ theorem replace2_no_a {a b : Nat} {r : Cps} : ∀ s : Cps, (∀ x ∈ s, x ≠ a
     simp only [hx, false_and, if_false]
     rw [replace2_no_a (y :: t) (fun z hz => h z (by simp [hz]))]
 
+theorem simpleEscMatch_needsBs : NeedsBs simpleEscMatch := by
+  intro c t hc
+  unfold simpleEscMatch
+  cases t with
+  | nil => rfl
+  | cons d t => simp [hc]
+
+theorem forbMatch_eq_any : ∀ v : Cps, forbMatch v = v.any isForb
+  | [] => rfl
+  | c :: t => by
+    simp only [forbMatch, List.any_cons]
+    cases h : isForb c with
+    | true => simp
+    | false =>
+      have h10 : c ≠ 10 := by intro e; subst e; simp [isForb, isSpaceU] at h
+      simp [h10, forbMatch_eq_any t]
+
 end CssVerif.StrCodec
